@@ -63,7 +63,7 @@ std::string runAndTranscribe(const Scenario& sc, vf::Result& res, bool checkOrac
     g_lastUsed = 0; g_tableSize = 0;
     verif_tt_index_observer = indexObserver;
     sess::customOp = probeMarker;
-    sess::runSession(sc, h, res);
+    harness_session_run(&sc, &h, &res);
     verif_tt_index_observer = nullptr;
     sess::customOp = nullptr;
     uci::Model m;
